@@ -371,3 +371,90 @@ def run(ctx):
     r21_2(ctx)
     r21_3(ctx)
     r21_4(ctx)
+
+
+# ---------------------------------------------------------------------------------------------------------------- R21.7 / R21.8
+def r21_7(ctx, m):
+    """repeated stochasticity must be a pristine duplicate, never the same (stateful) SeedSequence object"""
+    from ..util import cfg_of, find_nodes, known_atoms
+    from ..terms import inline_at
+    fi = m.func("nifty.cl.minimization.optimize_kl", "optimize_kl")
+    ctx.rule("R21.7", "classic optimize_kl: an iteration without fresh stochasticity gets a NEW SeedSequence built from the previous "
+                      "iteration's (entropy, spawn_key, pool_size) - never an alias of the previous object, whose spawn counter has "
+                      "advanced by the time it is pushed again", floor=1)
+    cfg = cfg_of(fi)
+    rd = cfg.reaching_defs(fi.params())
+    # the per-iteration list: target of spawn_sseq(total)
+    lists = [n.ast.targets[0].id for n in cfg.nodes if n.kind == "stmt" and isinstance(n.ast, ast.Assign) and isinstance(n.ast.value, ast.Call)
+             and call_name(n.ast.value) == "spawn_sseq" and isinstance(n.ast.targets[0], ast.Name)]
+    key = f"{fi.key}::repeated stochasticity duplicates the previous seed sequence"
+    if len(lists) != 1:
+        ctx.und("R21.7", key, f"{len(lists)} spawn_sseq lists", fi)
+        return
+    L = lists[0]
+    stores = [n for n in cfg.nodes if n.kind == "stmt" and isinstance(n.ast, ast.Assign) and isinstance(n.ast.targets[0], ast.Subscript)
+              and src(n.ast.targets[0].value) == L]
+    if not stores:
+        ctx.und("R21.7", key, f"no store into {L}[...]", fi)
+        return
+    for n in stores:
+        idx = src(n.ast.targets[0].slice)
+        v = inline_at(cfg, rd, n.id, n.ast.value, depth=2, stop=(L, idx))
+        prev = f"{L}[{idx} - 1]"
+        good = isinstance(v, ast.Call) and src(v.func).endswith("SeedSequence") and v.args and src(v.args[0]) == f"{prev}.entropy" and \
+            {k.arg: src(k.value) for k in v.keywords} == {"spawn_key": f"{prev}.spawn_key", "pool_size": f"{prev}.pool_size"}
+        alias = isinstance(v, ast.Subscript) and src(v.value) == L
+        at = known_atoms(cfg, n.id)
+        guarded = any((not pol) and isinstance(t, ast.Call) and src(t.func) == "fresh_stochasticity" for t, pol in at)
+        ctx.check("R21.7", key, bool(good and guarded),
+                  f"`{short(n.ast)}` re-uses the SAME SeedSequence object: its children counter was advanced by the draws of the earlier "
+                  f"iteration, so the repeated iteration (and a resumed run) sees different seeds" if alias else src(v)[:200], fi, n.ast)
+
+
+def r21_8(ctx, m):
+    """the JAX driver continues the saved key chain on resume"""
+    from ..util import cfg_of, find_nodes
+    from ..terms import inline_at
+    fi = m.func("nifty.re.optimize_kl", "optimize_kl")
+    ctx.rule("R21.8", "nifty.re optimize_kl: the state that enters the loop after loading keeps the loaded PRNG key (and iteration "
+                      "counter): it is the loaded state with only `config` replaced, or a state that copies `key` and `nit` from it", floor=1)
+    cfg = cfg_of(fi)
+    rd = cfg.reaching_defs(fi.params())
+    reps = [(n, c) for n, c in find_nodes(cfg, lambda q: isinstance(q, ast.Call) and isinstance(q.func, ast.Attribute) and q.func.attr == "_replace")
+            if n.kind == "stmt" and isinstance(n.ast, ast.Assign) and n.ast.value is c]
+    # the re-attach statement: guarded by len(<state>.config) == 0
+    from ..util import known_atoms
+    cands = []
+    for n, c in reps:
+        at = known_atoms(cfg, n.id)
+        for t, pol in at:
+            if pol and "config" in src(t) and "len(" in src(t):
+                cands.append((n, c, t))
+    key = f"{fi.key}::resumed state keeps the loaded key and iteration counter"
+    if len(cands) != 1:
+        ctx.und("R21.8", key, f"{len(cands)} re-attach statements", fi)
+        return
+    n, c, t = cands[0]
+    loaded = None
+    for x in ast.walk(t):
+        if isinstance(x, ast.Attribute) and x.attr == "config":
+            loaded = src(x.value)
+    base = src(c.func.value)
+    kws = {k.arg: src(k.value) for k in c.keywords}
+    if base == loaded:
+        good = "key" not in kws and "nit" not in kws
+        det = f"{base}._replace({', '.join(kws)})"
+    else:
+        good = kws.get("key") == f"{loaded}.key" and kws.get("nit") == f"{loaded}.nit"
+        det = f"state rebuilt from `{base}` with {sorted(kws)}: " + ("key and nit copied" if good else
+                                                                      "the loaded PRNG key is dropped, the resumed run restarts its key chain" if "key" not in kws else "fields not taken from the loaded state")
+    ctx.check("R21.8", key, good, det, fi, c)
+
+
+_run_c21b = run
+
+
+def run(ctx):  # noqa: F811
+    _run_c21b(ctx)
+    r21_7(ctx, ctx.model)
+    r21_8(ctx, ctx.model)
